@@ -46,7 +46,9 @@ func ccSeen(c fiber.Ctx) string {
 		rd.Messages(), rd.OldInputs(), view, c.GetRespHeader("X-Who"), c.Accepts("text/html;level=1", "application/json;v=2", "text/plain")+"/"+c.AcceptsLanguages("en", "fr", "de")+"/"+c.AcceptsEncodings("gzip", "br"))
 }
 
-func ccBuildApp(cfg int) func() fasthttp.RequestHandler {
+// ccBuildApp: warm (may be nil) are requests served one after the other BEFORE the two concurrent ones — the
+// application's context pool, the redirect pool and the binder pools then hold what those requests released.
+func ccBuildApp(cfg int, warm ...func() *fasthttp.Request) func() fasthttp.RequestHandler {
 	return func() fasthttp.RequestHandler {
 		conf := fiber.Config{DisableDefaultDate: true, Views: tinyViews{}, PassLocalsToViews: true, Immutable: cfg == 2}
 		app := fiber.New(conf)
@@ -82,7 +84,22 @@ func ccBuildApp(cfg int) func() fasthttp.RequestHandler {
 			verifrt.Yield("handler.redirect")
 			return c.Redirect().With("k1", "flash-of-"+c.Params("a")).WithInput().To("/p/x")
 		})
-		return app.Handler()
+		app.Get("/redir2/:a", func(c fiber.Ctx) error {
+			rd := c.Redirect().Status(303).With("k2", "second-of-"+c.Params("a"), 7)
+			verifrt.Yield("handler.redirect2")
+			return rd.With("k3", "third-of-"+c.Params("a"), 8).To("/p/y")
+		})
+		app.Get("/fail/:a", func(c fiber.Ctx) error {
+			c.Redirect().Status(301).With("k1", "abandoned-by-"+c.Params("a"))
+			return fiber.NewError(fiber.StatusTeapot, "failed for "+c.Params("a"))
+		})
+		serve := app.Handler()
+		for _, mk := range warm {
+			var fctx fasthttp.RequestCtx
+			fctx.Init(mk(), nil, nil)
+			serve(&fctx)
+		}
+		return serve
 	}
 }
 
@@ -131,5 +148,40 @@ func runConcurrentMixes(r *core.Run) {
 	ccpair.Run(r, "concurrent", scs, bound)
 	if r.P.Counters["cc_executions"] < 1000 {
 		core.Fatal("vacuous concurrent part: only %d executions", r.P.Counters["cc_executions"])
+	}
+
+	// histories x schedules: the same two-in-flight exploration on an application that has already SERVED a request
+	// (one per kind of exit from the request handler: unknown method, 404, 405, flash cookie, redirect, failed
+	// binding, handler error) — what that request released into the pools (a context put back twice, a Redirect
+	// object still referenced ...) is handed to the two concurrent requests. The responses are compared with the
+	// same request served alone after the same warm-up.
+	before := r.P.Counters["cc_executions"]
+	badJSON := mk("POST", "/bind", "warm", "application/json", `{"name":`)
+	warms := []struct {
+		Name string
+		Make func() *fasthttp.Request
+	}{
+		{"unknown-method", mk("FOO", "/p/x", "warm", "", "")},
+		{"404", mk("GET", "/nowhere/warm", "warm", "", "")},
+		{"405", mk("DELETE", "/p/x", "warm", "", "")},
+		{"flash-cookie", mk("GET", "/w/warm/tail", "warm", "", "", "Cookie", fiber.FlashCookieName+"="+flash)},
+		{"redirect", mk("GET", "/redir/warm?name=in-warm", "warm", "", "")},
+		{"failed-binding", badJSON},
+		{"handler-error", mk("GET", "/fail/warm", "warm", "", "")},
+	}
+	hana := ccpair.Req{Name: "get-redirect2-hana", Make: mk("GET", "/redir2/hana", "hana", "", "")}
+	sub := []ccpair.Req{reqs[0], reqs[2], reqs[3], reqs[5], hana}
+	var wscs []ccpair.Scenario
+	for _, w := range warms {
+		wscs = append(wscs, ccpair.Scenario{Name: "after-" + w.Name, Build: ccBuildApp(0, w.Make), Reqs: sub, Observe: ccObserve, Self: true, Unordered: true})
+	}
+	wbound := 1
+	if !r.Quick() {
+		wbound = 2
+	}
+	ccpair.Run(r, "concurrent-after-history", wscs, wbound)
+	r.P.Counters["cc_executions_after_history"] = r.P.Counters["cc_executions"] - before
+	if r.P.Counters["cc_executions_after_history"] < 500 {
+		core.Fatal("vacuous concurrent-after-history part: only %d executions", r.P.Counters["cc_executions_after_history"])
 	}
 }
